@@ -146,6 +146,31 @@ func (a *LightApp) CommitBlock(block *types.Block, blockParts *types.PartSet, se
 	return nil, nil
 }
 
+// Stored returns what the application stored for height h.
+func (a *LightApp) Stored(h uint64) (*types.Block, *types.PartSet, *types.Commit) {
+	if sb := a.blocks[h]; sb != nil {
+		return sb.block, sb.parts, sb.commit
+	}
+	return nil, nil, nil
+}
+func (a *LightApp) SetOnCommit(f func(CommitEvent)) { a.OnCommit = f }
+
+// SimApp is what the simulator needs from a node's application.
+type SimApp interface {
+	cs.BlockChainApp
+	Stored(h uint64) (*types.Block, *types.PartSet, *types.Commit)
+	SetOnCommit(f func(CommitEvent))
+}
+
+// NodeParts lets a caller supply a node built elsewhere (chainkit: the real application).
+type NodeParts struct {
+	App       SimApp
+	StatusDB  dbm.DB
+	BlockExec *cs.BlockExecutor
+	Mempool   cs.Mempool
+	EvPool    cs.EvidencePool
+}
+
 // ---------------------------------------------------------------- nodes
 
 type ValKey struct {
@@ -158,7 +183,7 @@ type Node struct {
 	ID         int
 	Key        ValKey
 	CS         *cs.ConsensusState
-	App        *LightApp
+	App        SimApp
 	PV         *types.FilePV
 	DB         dbm.DB
 	Dead       bool   // state machine panicked (consensus halted on this node)
@@ -215,6 +240,10 @@ type Config struct {
 	Scratch   string
 	KeepTrace bool
 	MockPV    bool
+	// Real-application mode: the validator keys, genesis document and per-node parts come from the caller.
+	Keys     []crypto.PrivKeyEd25519
+	GenDoc   *types.GenesisDoc
+	MakeNode func(id int) (*NodeParts, error)
 }
 
 var globals sync.Once
@@ -238,7 +267,11 @@ func New(r *rng.R, conf Config) (*Sim, error) {
 	s := &Sim{R: r, ChainID: "detsim", Conf: conf, Scratch: conf.Scratch, NodeByID: map[int]*Node{}, lost: map[[2]int]bool{}}
 	kr := r.Split()
 	for i, p := range conf.Powers {
-		s.Vals = append(s.Vals, ValKey{Priv: detKey(kr), Power: p, Byz: conf.Byz[i]})
+		k := detKey(kr)
+		if conf.Keys != nil {
+			k = conf.Keys[i]
+		}
+		s.Vals = append(s.Vals, ValKey{Priv: k, Power: p, Byz: conf.Byz[i]})
 	}
 	params := types.DefaultConsensusParams()
 	if conf.PartSize > 0 {
@@ -253,6 +286,10 @@ func New(r *rng.R, conf Config) (*Sim, error) {
 	if err := gd.ValidateAndComplete(); err != nil {
 		return nil, err
 	}
+	if conf.GenDoc != nil {
+		gd = conf.GenDoc
+		s.ChainID = gd.ChainID
+	}
 	s.GenDoc = gd
 	s.ValSet = types.NewValidatorSet(vals)
 	s.Mon = NewMonitor(s)
@@ -260,7 +297,16 @@ func New(r *rng.R, conf Config) (*Sim, error) {
 		if v.Byz {
 			continue
 		}
-		n, err := s.newNode(i, dbm.NewMemDB(), NewLightApp(i, s.ChainID, vals))
+		var n *Node
+		var err error
+		if conf.MakeNode != nil {
+			var np *NodeParts
+			if np, err = conf.MakeNode(i); err == nil {
+				n, err = s.newNodeFrom(i, np)
+			}
+		} else {
+			n, err = s.newNode(i, dbm.NewMemDB(), NewLightApp(i, s.ChainID, vals))
+		}
 		if err != nil {
 			return nil, err
 		}
@@ -271,6 +317,11 @@ func New(r *rng.R, conf Config) (*Sim, error) {
 }
 
 func (s *Sim) newNode(id int, db dbm.DB, app *LightApp) (*Node, error) {
+	return s.newNodeFrom(id, &NodeParts{App: app, StatusDB: db})
+}
+
+func (s *Sim) newNodeFrom(id int, np *NodeParts) (*Node, error) {
+	db := np.StatusDB
 	status, err := cs.LoadStatus(db)
 	if err != nil || status.IsEmpty() {
 		status, err = cs.CreateStatusFromGenesisDoc(db, s.GenDoc)
@@ -278,10 +329,21 @@ func (s *Sim) newNode(id int, db dbm.DB, app *LightApp) (*Node, error) {
 			return nil, err
 		}
 	}
-	n := &Node{ID: id, Key: s.Vals[id], App: app, DB: db, seen: map[int]bool{}}
-	app.OnCommit = s.Mon.OnCommit
-	blockExec := cs.NewBlockExecutor(db, log.NewNopLogger(), cs.MockEvidencePool{})
-	n.CS = cs.NewConsensusState(consensusConfig(), status.Copy(), blockExec, app, cs.MockMempool{}, cs.MockEvidencePool{})
+	n := &Node{ID: id, Key: s.Vals[id], App: np.App, DB: db, seen: map[int]bool{}}
+	np.App.SetOnCommit(s.Mon.OnCommit)
+	blockExec := np.BlockExec
+	if blockExec == nil {
+		blockExec = cs.NewBlockExecutor(db, log.NewNopLogger(), cs.MockEvidencePool{})
+	}
+	var mp cs.Mempool = cs.MockMempool{}
+	if np.Mempool != nil {
+		mp = np.Mempool
+	}
+	var ep cs.EvidencePool = cs.MockEvidencePool{}
+	if np.EvPool != nil {
+		ep = np.EvPool
+	}
+	n.CS = cs.NewConsensusState(consensusConfig(), status.Copy(), blockExec, np.App, mp, ep)
 	eb := types.NewEventBus()
 	if err := eb.Start(); err != nil {
 		return nil, err
@@ -763,3 +825,11 @@ func (s *Sim) byzPropose(id int, ref *Node, h uint64, r int) {
 
 // StepName is used in samples.
 func StepName(s cstypes.RoundStepType) string { return s.String() }
+
+// PostAll publishes a message of validator `from` to every node (used by scripted adversaries).
+func (s *Sim) PostAll(from int, m cs.ConsensusMessage) { s.post(from, m, nil, true) }
+
+// SignVote signs a vote with validator id's key.
+func (s *Sim) SignVote(id int, typ byte, h uint64, r int, bid types.BlockID) *types.Vote {
+	return s.signVote(id, typ, h, r, bid)
+}
